@@ -890,6 +890,9 @@ class _ExpressionParser:
                         args_omitted_indices = self.parse_comma_separated(end=')', parse_item=functools.partial(self.parse_subexpression, omitted_indices=True))
                     except ExpressionSyntaxError:
                         self._index = index
+                    else:
+                        if not args_omitted_indices:
+                            self._index = index
                 if args_omitted_indices:
                     if not all(arg.shape == args_omitted_indices[0].shape for arg in args_omitted_indices):
                         raise _IntermediateError('All arguments should have the same shape.')
